@@ -1,6 +1,7 @@
 package mon
 
 import (
+	"fmt"
 	"math/rand/v2"
 	"strings"
 
@@ -97,6 +98,17 @@ func charEdits(w *W, s string, m *strMeta, visit strVisitor) {
 				visit(w, s[:p]+string([]byte{b})+s[p+1:], m)
 			}
 		}
+		// rune-level relatives: code points whose low byte is c, the fullwidth form, and the percent escape
+		if c < 0x80 {
+			for _, r := range []rune{0x100 + rune(c), 0x400 + rune(c), 0x10000 + rune(c)} {
+				visit(w, s[:p]+string(r)+s[p+1:], m)
+			}
+			if c > 0x20 && c < 0x7f {
+				visit(w, s[:p]+string(rune(0xFF00+int(c)-0x20))+s[p+1:], m)
+			}
+			visit(w, s[:p]+fmt.Sprintf("%%%02X", c)+s[p+1:], m)
+			visit(w, s[:p]+fmt.Sprintf("%%%02x", c)+s[p+1:], m)
+		}
 	}
 	for _, a := range editAlphabet {
 		visit(w, s+a, m)
@@ -187,6 +199,7 @@ func tokenEdits3(w *W, prefix string, toks []string, m *strMeta, visit strVisito
 			visit(w, join3(prefix, sw), m) // swap
 		}
 	}
+	blockMoves(w, toks, func(t []string) string { return join3(prefix, t) }, m, visit)
 	body := strings.Join(toks, "/")
 	for _, s := range []string{prefix + "//" + body, "/" + prefix + "/" + body, prefix + "/" + body + "/", prefix + "/" + body + "//", prefix + body, prefix + ":" + body,
 		prefix + "/" + strings.ReplaceAll(body, "/", "//"), prefix + "/" + strings.ReplaceAll(body, "/", " /"), prefix + "/" + strings.ReplaceAll(body, ":", "::"),
@@ -196,6 +209,24 @@ func tokenEdits3(w *W, prefix string, toks []string, m *strMeta, visit strVisito
 	}
 	for _, p := range prefixCatalogue {
 		visit(w, join3(p, toks), m)
+	}
+}
+
+// blockMoves visits every relocation of every contiguous block of 2..5 tokens.
+func blockMoves(w *W, toks []string, join func([]string) string, m *strMeta, visit strVisitor) {
+	n := len(toks)
+	for i := 0; i < n; i++ {
+		for l := 2; l <= 5 && i+l <= n; l++ {
+			block := toks[i : i+l]
+			rest := append(append([]string(nil), toks[:i]...), toks[i+l:]...)
+			for pos := 0; pos <= len(rest); pos++ {
+				if pos == i {
+					continue
+				}
+				out := append(append(append([]string(nil), rest[:pos]...), block...), rest[pos:]...)
+				visit(w, join(out), m)
+			}
+		}
 	}
 }
 
@@ -334,6 +365,7 @@ func tokenEdits2(w *W, toks []string, m *strMeta, visit strVisitor) {
 			visit(w, j2(without(without(toks, j), i)), m)
 		}
 	}
+	blockMoves(w, toks, j2, m, visit)
 	body := j2(toks)
 	for _, s := range []string{"/" + body, body + "/", "//" + body, body + "//", "CVSS:2.0/" + body, "CVSS:3.1/" + body, "(" + body + ")", "(" + body, body + ")", " " + body, body + " ", body + "\n",
 		strings.ReplaceAll(body, "/", "//"), strings.ReplaceAll(body, "/", " "), strings.ReplaceAll(body, "/", "\\"), strings.ToLower(body), strings.ToUpper(body), strings.ReplaceAll(body, ":", "::"), "\ufeff" + body, ""} {
@@ -542,6 +574,16 @@ func lengthSweep(v2 bool, big bool) []string {
 		have := strings.Count(base, "/")
 		if n >= have {
 			out = append(out, base+strings.Repeat("/ZZ:N", n-have), base+strings.Repeat("/", n-have))
+		}
+	}
+	// runs of UTF-8 continuation bytes / lead bytes at the end, start and middle of fields of several lengths
+	for _, n := range []int{0, 1, 8, 30, 40, 60, 100, 250} {
+		for _, m := range []int{1, 2, 3, 4, 8, 15, 16, 17, 32, 64} {
+			for _, b := range []string{"\x80", "\xbf", "\xc3", "\xe3\x81", "\xf0\x9f"} {
+				run := strings.Repeat(b, m)
+				a := strings.Repeat("a", n)
+				out = append(out, prefix+valid+"/X:"+a+run, prefix+valid+"/"+run+a+":X", prefix+valid+"/E:"+a+run+a, prefix+valid+"/"+a+run)
+			}
 		}
 	}
 	return out
